@@ -25,6 +25,9 @@ type C15Case struct {
 	Status int `json:"status,omitempty"`
 	// Listing (http targets): body of the hostile /items and /files listings ("" = one plain name)
 	Listing string `json:"listing,omitempty"`
+	// Alter (two-sided http targets): the peer is a real server over healthy files of the layout in Data, reached
+	// through a relay that alters the request's query this way: a well-formed answer to another question
+	Alter string `json:"alter,omitempty"`
 }
 
 var c15Child *hostileChild
@@ -50,8 +53,8 @@ func hostileCall(req hostileReq) hostileResp {
 const allocSlack = 1 << 20
 
 func runC15(c C15Case, ev *Evid) (fs []Finding) {
-	resp := hostileCall(hostileReq{Target: c.Target, Data: c.Data, Now: c.Now, Claim: c.Claim, Status: c.Status, Listing: c.Listing})
-	desc := fmt.Sprintf("target=%s origin=%s %d bytes %s", c.Target, c.Origin, len(c.Data), hexHead(c.Data, 48))
+	resp := hostileCall(hostileReq{Target: c.Target, Data: c.Data, Now: c.Now, Claim: c.Claim, Status: c.Status, Listing: c.Listing, Alter: c.Alter})
+	desc := fmt.Sprintf("target=%s origin=%s%s %d bytes %s", c.Target, c.Origin, map[bool]string{true: " alter=" + c.Alter}[c.Alter != ""], len(c.Data), hexHead(c.Data, 48))
 	switch {
 	case resp.Timeout:
 		// a true hang cannot be told from slowness: reported as inconclusive by the driver (DESIGN section 8)
@@ -70,6 +73,19 @@ func runC15(c C15Case, ev *Evid) (fs []Finding) {
 		return []Finding{{Property: "C15", Key: "panic", Detail: fmt.Sprintf("%s: panic in %s: %s", desc, resp.Where, resp.Panic)}}
 	}
 	limit := uint64(allocSlack + 64*len(c.Data))
+	if c.Target == "http-diff-src" || c.Target == "http-copy-src" || c.Target == "http-sumdiff-dest" || c.Target == "http-sumdiff-src" {
+		// the healthy local side of the command is a real file of the announced layout (up to 1 MiB): creating,
+		// reading and comparing it is proportional to ITS size
+		if h, err := ParseWspHeader(c.Data); err == nil {
+			size := int64(16 + 12*len(h.Archives))
+			for _, a := range h.Archives {
+				size += 12 * int64(a.Points)
+			}
+			if size <= 1<<20 {
+				limit += uint64(96 * size)
+			}
+		}
+	}
 	if c.Listing != "" {
 		// every listed name is a request of its own whose reply (the data) is decoded once more
 		lines := strings.Count(c.Listing, "\n") + 1
@@ -81,12 +97,15 @@ func runC15(c C15Case, ev *Evid) (fs []Finding) {
 	gate := map[string]int{"header": 16, "series": 12, "points": 8, "point": 12, "value": 8, "timestamp": 4, "duration": 4, "archiveinfo": 12, "file": 16, "http-view": 16, "http-view-raw": 16, "http-sum": 16, "http-diff-src": 16, "http-copy-src": 16, "http-sumdiff-dest": 16, "http-sumdiff-src": 16}[c.Target]
 	nontrivial := len(c.Data) >= gate
 	cls := []string{"target=" + c.Target, "origin=" + c.Origin}
+	if c.Alter != "" {
+		cls = append(cls, "alter="+c.Alter)
+	}
 	if resp.Decoded {
 		cls = append(cls, "accepted")
 	} else {
 		cls = append(cls, "rejected")
 	}
-	ev.Count(Hash64(c.Target, string(c.Data), c.Now+c.Claim+int64(c.Status)<<40+int64(len(c.Listing))<<20), nontrivial, cls...)
+	ev.Count(Hash64(c.Target, string(c.Data), c.Now+c.Claim+int64(c.Status)<<40+int64(len(c.Listing))<<20+int64(len(c.Alter))<<50), nontrivial, cls...)
 	if nontrivial && ev.WantSample() && len(c.Data) < 200 {
 		ev.Sample(c)
 	}
@@ -319,6 +338,12 @@ func genC15(t *rapid.T) C15Case {
 		// zone Z7 also applies to hostile files' clocks: two coarsest steps (of the small layouts, < 2^24 s) below 2^32
 		c.Now = rapid.Int64Range(1<<31, 1<<32-1<<26).Draw(t, "nowHigh")
 	}
+	if (c.Target == "http-diff-src" || c.Target == "http-copy-src" || c.Target == "http-sumdiff-dest" || c.Target == "http-sumdiff-src") && rapid.IntRange(0, 4).Draw(t, "relayed") == 0 {
+		c.Data = EncodeLayoutHeader(genSmallLayout(t))
+		c.Alter = rapid.SampledFrom([]string{"all-archives", "next-archive", "until-minus-step", "until-minus-last-step", "from-plus-step", "now-minus-hour", "now-plus-last-step"}).Draw(t, "alter")
+		c.Origin = "relayed-with-altered-query"
+		return c
+	}
 	valid := genValidBytesAt(t, c.Target, c.Now)
 	if (c.Target == "http-sum" || c.Target == "http-diff-src" || c.Target == "http-copy-src" || c.Target == "http-sumdiff-src") && rapid.IntRange(0, 3).Draw(t, "oddListing") == 0 {
 		// the name listings are untrusted text too
@@ -357,6 +382,22 @@ func genC15(t *rapid.T) C15Case {
 		if rapid.Bool().Draw(t, "cutToo") && len(valid) > 0 {
 			c.Data = valid[:rapid.IntRange(0, len(valid)-1).Draw(t, "cutAt")]
 		}
+		return c
+	}
+	if c.Target == "file" && c.Now < 1<<31-4 && rapid.IntRange(0, 29).Draw(t, "retentionBeyondClock") == 0 {
+		// a step field set to a value that makes the (still valid) archive reach back beyond the epoch
+		pts := uint32(rapid.IntRange(1, 3).Draw(t, "rbcPoints"))
+		st := uint32(rapid.Int64Range((c.Now+int64(pts)-1)/int64(pts), (1<<31-1)/int64(pts)).Draw(t, "rbcStep"))
+		h := EncodeLayoutHeader(Layout{Archives: []Arch{{1, 1}}, Method: rapid.IntRange(1, 6).Draw(t, "rbcMethod")})
+		binary.BigEndian.PutUint32(h[4:], st*pts)
+		binary.BigEndian.PutUint32(h[20:], st)
+		binary.BigEndian.PutUint32(h[24:], pts)
+		b := append(h, make([]byte, 12*pts)...)
+		if rapid.Bool().Draw(t, "rbcPopulated") {
+			binary.BigEndian.PutUint32(b[28:], uint32(alignDown(c.Now, int64(st))))
+			binary.BigEndian.PutUint64(b[32:], math.Float64bits(1.5))
+		}
+		c.Data, c.Origin = b, "retention-beyond-clock"
 		return c
 	}
 	if c.Target == "file" && rapid.IntRange(0, 14).Draw(t, "hugeStep") == 0 {
@@ -451,6 +492,20 @@ func genC15(t *rapid.T) C15Case {
 
 func c15Fixed() []C15Case {
 	var out []C15Case
+	// files whose step field was set to an extreme value and that still open: the retention reaches back beyond
+	// the epoch as seen from the clock (defect D22: a fetch up to the far future panicked in makeslice)
+	for _, st := range []uint32{0x7ffffff0, 0x7fffffff, 0x60000000, 1 << 30} {
+		for _, pts := range []uint32{1, 2} {
+			if uint64(st)*uint64(pts) > 1<<31-1 {
+				continue
+			}
+			h := EncodeLayoutHeader(Layout{Archives: []Arch{{1, 1}}, Method: 1})
+			binary.BigEndian.PutUint32(h[4:], st*pts)
+			binary.BigEndian.PutUint32(h[20:], st)
+			binary.BigEndian.PutUint32(h[24:], pts)
+			out = append(out, C15Case{Target: "file", Data: append(h, make([]byte, 12*pts)...), Now: 1500000111, Origin: "fixed-retention-beyond-clock"})
+		}
+	}
 	// the 28-byte header whose archive count x 12 wraps 32 bits, and neighbours
 	for _, cnt := range []uint32{0x15555556, 0x15555555, 0x2AAAAAAB, 0xFFFFFFFF, 0x80000000, 0x10000000} {
 		h := EncodeLayoutHeader(Layout{Archives: []Arch{{1, 60}}, Method: 1})
@@ -488,7 +543,7 @@ func TestC15(t *testing.T) {
 	}()
 	RunProperty(t, Property[C15Case]{
 		ID:          "C15",
-		Rule:        "byte strings for 12 targets (every TakeFrom; Open on a file with those bytes followed by fetches, raw dumps, single and batch updates and Sync on a handle that opened; view / view-raw / sum against a hostile HTTP server replying with the bytes): 10% random, else a specification-encoded valid message mutated by truncation, bit flips, substitution of 32/64-bit fields by extreme constants (0, 1, 2^31-1, 2^31, 2^32-1, 0x15555556, values whose product with 8/12/16 wraps 32 or 64 bits) or body truncation; executed in a child process with RLIMIT_AS = 3 GiB. Violation: panic, child death (out of memory / stack overflow), or more than 1 MiB + 64 x input length bytes allocated (runtime/metrics /gc/heap/allocs:bytes). A 20 s per-input timeout is reported as inconclusive. Non-trivial: the input is at least as long as the decoder's fixed part (it reaches the size arithmetic). Distinct = hash of (target, bytes, clock).",
+		Rule:        "byte strings for 12 targets (every TakeFrom; Open on a file with those bytes followed by fetches, raw dumps, single and batch updates and Sync on a handle that opened; view / view-raw / sum against a hostile HTTP server replying with the bytes): 10% random, else a specification-encoded valid message mutated by truncation, bit flips, substitution of 32/64-bit fields by extreme constants (0, 1, 2^31-1, 2^31, 2^32-1, 0x15555556, values whose product with 8/12/16 wraps 32 or 64 bits) or body truncation; executed in a child process with RLIMIT_AS = 3 GiB. Violation: panic, child death (out of memory / stack overflow), or more than 1 MiB + 64 x input length bytes allocated (runtime/metrics /gc/heap/allocs:bytes). A 20 s per-input timeout is reported as inconclusive. Two-sided commands (diff / copy / sum-diff with one side remote) ask for one archive or all; origin relayed-with-altered-query serves healthy files through a relay that alters the query (other archive selection, shifted window ends, other clock); files whose step field makes the retention exceed the clock (D22). Non-trivial: the input is at least as long as the decoder's fixed part (it reaches the size arithmetic). Distinct = hash of (target, bytes, clock).",
 		Assumptions: []string{"allocation bound 1 MiB + 64 x input length (file targets: input length = file size)", "a hang is indistinguishable from slowness and is reported as inconclusive"},
 		Gen:         genC15,
 		Run:         runC15,
